@@ -17,6 +17,7 @@
 _Bool nondet_bool(void); int64_t nondet_i64(void); str_t nondet_str(void);
 CgroupContext g_cg;
 uint64_t g_high_writes, g_reclaims, g_swp_writes, g_tmp_reads, g_high_reads; int64_t g_last_high_value, g_reclaim_size; int g_swp_last;
+_Bool g_write_ret, g_reclaim_ret;      /* what the last writeMemhigh / reclaim answered (false: the cgroup is gone or the write failed) */
 opt_int64_t g_floor, g_ceil, g_usage, g_memhigh, g_memhigh_tmp; maybe__Bool g_vp, g_vs; opt_dur_us_t g_total; opt_double g_swap_util; SystemContext g_sys;
 maybe_vec_str_t g_ctrls; _Bool g_has_mem; uint64_t g_mi; _Bool g_reclaim_file; uint64_t g_exist_checks;
 
@@ -36,10 +37,10 @@ maybe__Bool Senpai__validateSwap(Senpai *s, CgroupContext c) { return g_vs; }
 opt_dur_us_t getPressureTotalSome(CgroupContext c) { return g_total; }     /* ASSUMED not to throw (legacy PSI without total does) */
 _Bool Senpai__writeMemhigh(Senpai *s, CgroupContext c, int64_t v)
 { __CPROVER_assert(c == g_cg, "memory.high is written for the cgroup being ticked only"); /*@C18*/
-  g_high_writes = g_high_writes + 1; g_last_high_value = v; return nondet_bool(); }
+  g_high_writes = g_high_writes + 1; g_last_high_value = v; g_write_ret = nondet_bool(); return g_write_ret; }
 _Bool Senpai__reclaim(Senpai *s, CgroupContext c, int64_t size)
 { __CPROVER_assert(c == g_cg, "memory is reclaimed from the cgroup being ticked only"); /*@C18*/
-  g_reclaims = g_reclaims + 1; g_reclaim_size = size; return nondet_bool(); }
+  g_reclaims = g_reclaims + 1; g_reclaim_size = size; g_reclaim_ret = nondet_bool(); return g_reclaim_ret; }
 maybe_Unit nondet_maybe_unit(void);
 maybe_Unit Fs__setSwappiness(int v) { g_swp_writes = g_swp_writes + 1; g_swp_last = v; return nondet_maybe_unit(); }
 maybe_vec_str_t Fs__readControllersAt(Fs_DirFd fd) { return g_ctrls; }
@@ -116,7 +117,7 @@ Senpai_CgroupState Senpai_CgroupState__from__int64_t_dur_us_t_int64_t(int64_t st
 { Senpai_CgroupState s; s.limit = start_limit; s.last_total = total; s.cumulative.us = 0; s.ticks = start_ticks; s.probe_bytes = 0; s.probe_count = 0; return s; }   /* CgroupState constructor + default member initialisers (Senpai.h) */
 opt_Senpai_CgroupState Senpai__initializeCgroup(Senpai *self, CgroupContext cgroup_ctx)
   __CPROVER_requires(__CPROVER_is_fresh(self, sizeof(*self)) && ghost_exc == 0 && cgroup_ctx == g_cg && g_high_writes < (1UL << 40))
-  __CPROVER_assigns(g_high_writes, g_last_high_value)
+  __CPROVER_assigns(g_high_writes, g_last_high_value, g_write_ret)
   /* (re)starting to track a cgroup writes its CURRENT USAGE as the limit, once; nothing in immediate-backoff mode */ /*@C18*/
   __CPROVER_ensures(self->immediate_backoff_ ? g_high_writes == __CPROVER_old(g_high_writes)
       : (HAS(g_usage) ? (g_high_writes == __CPROVER_old(g_high_writes) + 1 && g_last_high_value == g_usage.val) : g_high_writes == __CPROVER_old(g_high_writes)))
@@ -127,6 +128,8 @@ opt_Senpai_CgroupState Senpai__initializeCgroup(Senpai *self, CgroupContext cgro
          __CPROVER_return_value.val.probe_bytes == 0 && __CPROVER_return_value.val.probe_count == 0)
       : 1)
   __CPROVER_ensures((self->immediate_backoff_ && HAS(g_total)) ? HAS(__CPROVER_return_value) : 1)
+  /* tracking starts iff everything needed was available AND the limit could be written */
+  __CPROVER_ensures(!self->immediate_backoff_ ? (HAS(__CPROVER_return_value) == (HAS(g_usage) && g_write_ret && HAS(g_total))) : 1) /*@C18*/
   __CPROVER_ensures(ghost_exc == 0);
 
 /* ---- tick_immediate_backoff ---- */
@@ -139,7 +142,7 @@ _Bool Senpai__tick_immediate_backoff(Senpai *self, CgroupContext cgroup_ctx, Sen
                      BOOL01(self->swap_validation_) && BOOL01(self->modulate_swappiness_) && (!g_vp.ok || BOOL01(g_vp.val)) && (!g_vs.ok || BOOL01(g_vs.val)))
   __CPROVER_requires(self->swap_threshold_ == self->swap_threshold_ && self->swapout_bps_threshold_ > 0 && g_sys.swapout_bps_60 >= 0.0 && g_sys.swapout_bps_300 >= 0.0 &&
                      (!HAS(g_swap_util) || g_swap_util.val >= 0.0))
-  __CPROVER_assigns(*state, g_reclaims, g_reclaim_size, g_swp_writes, g_swp_last)
+  __CPROVER_assigns(*state, g_reclaims, g_reclaim_size, g_reclaim_ret, g_swp_writes, g_swp_last)
   __CPROVER_ensures(BOOL01(__CPROVER_return_value) && g_high_writes == 0)
   /* while the interval counts down nothing is touched */ /*@C18*/
   __CPROVER_ensures(__CPROVER_old(state->ticks) != 0
@@ -157,6 +160,8 @@ _Bool Senpai__tick_immediate_backoff(Senpai *self, CgroupContext cgroup_ctx, Sen
   /* vm.swappiness: only when modulation is on, only around a reclaim, and the last value written is the one read this tick */ /*@C18*/
   __CPROVER_ensures(!self->modulate_swappiness_ ? g_swp_writes == 0 : (g_swp_writes == 0 || (g_swp_writes == 2 && g_swp_last == g_sys.swappiness && g_reclaims == 1)))
   __CPROVER_ensures((self->modulate_swappiness_ && g_reclaims == 1) ? g_swp_writes == 2 : 1)
+  /* a reclaim that fails (cgroup gone) drops the cgroup from tracking */ /*@C18*/
+  __CPROVER_ensures(g_reclaims == 1 ? (__CPROVER_return_value != 0) == (g_reclaim_ret != 0) : 1)
   /* bookkeeping of a successful reclaim */
   __CPROVER_ensures((g_reclaims == 1 && __CPROVER_return_value)
       ? (state->probe_count == __CPROVER_old(state->probe_count) + 1 && state->probe_bytes == __CPROVER_old(state->probe_bytes) + S2U_u64(g_reclaim_size) && state->ticks == self->interval_)
@@ -168,8 +173,10 @@ uint64_t g_adjusts;
 _Bool Senpai__tick__lambda_adjust(Senpai *self, CgroupContext cgroup_ctx, Senpai_CgroupState *state, double factor)
   __CPROVER_requires(__CPROVER_is_fresh(self, sizeof(*self)) && __CPROVER_is_fresh(state, sizeof(*state)) && cgroup_ctx == g_cg && ghost_exc == 0 && g_high_writes < (1UL << 40))
   __CPROVER_requires((!HAS(g_floor) || (g_floor.val >= 0 && g_floor.val <= B56)) && (!HAS(g_ceil) || g_ceil.val >= 0))
-  __CPROVER_assigns(*state, g_high_writes, g_last_high_value)
+  __CPROVER_assigns(*state, g_high_writes, g_last_high_value, g_write_ret)
   __CPROVER_ensures(BOOL01(__CPROVER_return_value) && g_high_writes <= __CPROVER_old(g_high_writes) + 1 && g_high_writes >= __CPROVER_old(g_high_writes))
+  __CPROVER_ensures(g_high_writes > __CPROVER_old(g_high_writes) ? (__CPROVER_return_value != 0) == (g_write_ret != 0) : 1)
+  __CPROVER_ensures((HAS(g_floor) && HAS(g_ceil)) ? g_high_writes == __CPROVER_old(g_high_writes) + 1 : g_high_writes == __CPROVER_old(g_high_writes))
   __CPROVER_ensures(g_high_writes > __CPROVER_old(g_high_writes) ? (g_last_high_value == state->limit && (state->limit & 0xFFF) == 0 && state->cumulative.us == 0 && state->ticks == self->interval_)
                                                                  : (!__CPROVER_return_value && ST_EQ(*state, __CPROVER_old(*state))))
   __CPROVER_ensures(state->last_total.us == __CPROVER_old(state->last_total.us) && state->probe_count == __CPROVER_old(state->probe_count) && state->probe_bytes == __CPROVER_old(state->probe_bytes))
@@ -185,7 +192,7 @@ _Bool Senpai__tick(Senpai *self, CgroupContext cgroup_ctx, Senpai_CgroupState *s
                      state->last_total.us >= 0 && state->last_total.us <= (1L << 50) && (!HAS(g_total) || (g_total.val.us >= 0 && g_total.val.us <= (1L << 50))) &&
                      (!HAS(g_floor) || (g_floor.val >= 0 && g_floor.val <= B56)) && (!HAS(g_ceil) || g_ceil.val >= 0) &&
                      (!HAS(g_memhigh) || g_memhigh.val >= 0) && (!HAS(g_memhigh_tmp) || g_memhigh_tmp.val >= 0) && state->limit >= 0)
-  __CPROVER_assigns(*state, self->has_memory_high_tmp_, g_tmp_reads, g_high_reads, g_high_writes, g_last_high_value)
+  __CPROVER_assigns(*state, self->has_memory_high_tmp_, g_tmp_reads, g_high_reads, g_high_writes, g_last_high_value, g_write_ret)
   __CPROVER_ensures(BOOL01(__CPROVER_return_value) && g_high_writes <= 1)
   /* the limit in force cannot be read: the cgroup is dropped, nothing written */ /*@C18,C10*/
   __CPROVER_ensures(!HAS(self->has_memory_high_tmp_) ? (!__CPROVER_return_value && g_high_writes == 0) : 1)
@@ -205,10 +212,13 @@ _Bool Senpai__tick(Senpai *self, CgroupContext cgroup_ctx, Senpai_CgroupState *s
       ? (HAS(g_total) ? state->last_total.us == g_total.val.us : (!__CPROVER_return_value && g_high_writes == 0 && ST_EQ(*state, __CPROVER_old(*state))))
       : 1)
   __CPROVER_ensures((HAS(self->has_memory_high_tmp_) && !HAS(TK_SEEN)) ? (!__CPROVER_return_value && g_high_writes == 0) : 1)
+  /* a limit that could not be written (adjusted or restarted) drops the cgroup from tracking */ /*@C18*/
+  __CPROVER_ensures((g_high_writes == 1 && !g_write_ret) ? !__CPROVER_return_value : 1)
+  __CPROVER_ensures((HAS(self->has_memory_high_tmp_) && HAS(TK_SEEN) && TK_SEEN.val == __CPROVER_old(state->limit) && HAS(g_total) && HAS(g_floor) && HAS(g_ceil) && (g_high_writes == 0 || g_write_ret)) ? __CPROVER_return_value : 1)
   __CPROVER_ensures(ghost_exc == 0);
 
 #define HAVOC_ST() do { HAVOC(g_cg); HAVOC(g_floor); HAVOC(g_ceil); HAVOC(g_usage); HAVOC(g_memhigh); HAVOC(g_memhigh_tmp); HAVOC(g_vp); HAVOC(g_vs); HAVOC(g_total); \
-  HAVOC(g_swap_util); HAVOC(g_sys); HAVOC(g_ctrls); HAVOC(g_has_mem); HAVOC(g_mi); HAVOC(g_reclaim_file); HAVOC(ghost_exc); HAVOC(g_last_high_value); HAVOC(g_reclaim_size); HAVOC(g_swp_last); \
+  HAVOC(g_swap_util); HAVOC(g_sys); HAVOC(g_ctrls); HAVOC(g_has_mem); HAVOC(g_mi); HAVOC(g_reclaim_file); HAVOC(ghost_exc); HAVOC(g_last_high_value); HAVOC(g_reclaim_size); HAVOC(g_swp_last); HAVOC(g_write_ret); HAVOC(g_reclaim_ret); \
   g_high_writes = 0; g_reclaims = 0; g_swp_writes = 0; g_tmp_reads = 0; g_high_reads = 0; g_exist_checks = 0; g_adjusts = 0; } while (0)
 #define CANARY __CPROVER_assert(0, "canary: contract precondition satisfiable and function exit reachable")
 void h_hasMemoryHighTmp(void) { Senpai *s; CgroupContext c; HAVOC_ST(); Senpai__hasMemoryHighTmp(s, c); CANARY; }
